@@ -22,14 +22,14 @@ Example m1_alloc : map (sec_alloc m1) [0; 3; 6] = [16; 16; 8].
 Proof. vm_compute. reflexivity. Qed.
 
 Example m1_image0 :
-  image base1 m1 0 = map Some [1; 0; 0; 0; 2; 0; 0; 0; 3; 0; 0; 0; 255; 0; 0; 0]%Z.
+  image base1 (fun _ => 0%Z) m1 0 = map Some [1; 0; 0; 0; 2; 0; 0; 0; 3; 0; 0; 0; 255; 0; 0; 0]%Z.
 Proof. vm_compute. reflexivity. Qed.
 
 (* the ref at item 4 holds address(a) + 4 = 4100; the ref at item 6 holds import - 8 *)
 Example m1_refs :
   decode_le (le_bytes 8 (u64 (addr_of base1 m1 0 + 4))) = 4100%Z /\
-  slice (image base1 m1 3) 8 8 = map Some (le_bytes 8 4100%Z) /\
-  slice (image base1 m1 6) 0 8 = map Some (le_bytes 8 65528%Z).
+  slice (image base1 (fun _ => 0%Z) m1 3) 8 8 = map Some (le_bytes 8 4100%Z) /\
+  slice (image base1 (fun _ => 0%Z) m1 6) 0 8 = map Some (le_bytes 8 65528%Z).
 Proof. vm_compute. repeat split; reflexivity. Qed.
 
 (* expression data: i16 result of 0x12345 + 0xffff is truncated to 0x2344 *)
@@ -38,5 +38,5 @@ Definition m2 : list item :=
 
 Example m2_expr :
   layout m2 = [None; Some {| p_head := 1; p_off := 0 |}; Some {| p_head := 1; p_off := 1 |}] /\
-  image (fun _ => 0%Z) m2 1 = map Some [1; 68; 35]%Z /\ sec_alloc m2 1 = 8.
+  image (fun _ => 0%Z) (fun _ => 0%Z) m2 1 = map Some [1; 68; 35]%Z /\ sec_alloc m2 1 = 8.
 Proof. vm_compute. repeat split; reflexivity. Qed.
